@@ -3,6 +3,7 @@ a totally ordered log of atomic actions.  Everything here is harness-side: subcl
 CleanShutdownQueue and a wrapper around BaseEvent.event_result_update; no bubus source is changed.
 """
 import asyncio
+import inspect
 import datetime as dt
 import signal
 import traceback
@@ -66,6 +67,7 @@ class Rt:
         self.types = {}
         self.xtasks = []
         self.keepalive = []
+        self.dup_names = bool(sc.get('dup_names'))
         self.blocked = {}        # external task index -> (hang record kind, fields) while it is blocked in a bus call
         self.xid = {}            # asyncio task -> external task index
         self.next_expect = {}    # asyncio task -> handler index for the expect() it is about to call
@@ -196,6 +198,16 @@ def evsnap(ev):
     return {'st': ev.event_status, 'sig': sig, 'res': res,
             'parent': (RT.eid.get(ev.event_parent_id, -2) if ev.event_parent_id else None),
             'path': [next((i for bb, i in RT.busidx.items() if bb.name == n), -1) for n in ev.event_path]}
+
+
+def valsnap(ev):
+    """everything a client can read of a completed event, by value"""
+    sig = bool(ev._event_completed_signal and ev._event_completed_signal.is_set())
+    out = {'status': ev.event_status, 'signal': sig, 'n': len(ev.event_results)}
+    for hid, r in ev.event_results.items():
+        out['result ' + hid.split('.')[-1][-6:]] = [r.status, repr(r.result), repr(r.error), r.handler_name,
+                                                    str(r.started_at), str(r.completed_at), len(r.event_children)]
+    return out
 
 
 def briefsnap():
@@ -568,6 +580,24 @@ def run_prog_sync(i, bi, event, prog):
     raise RuntimeError('sync program suspended')
 
 
+def hname(k):
+    return 'h' if RT.dup_names else f'h{k}'
+
+
+def make_bus_method_handler(inner, sync, k, owner):
+    if sync:
+        def run(self, event):
+            return inner(event)
+    else:
+        async def run(self, event):
+            return await inner(event)
+    run.__name__ = hname(k)
+    import types
+    m = types.MethodType(run, owner)
+    RT.keepalive.append(m)
+    return m
+
+
 def make_method_handler(inner, sync, k):
     if sync:
         class Holder:
@@ -577,7 +607,7 @@ def make_method_handler(inner, sync, k):
         class Holder:
             async def run(self, event):
                 return await inner(event)
-    Holder.run.__name__ = f'h{k}'
+    Holder.run.__name__ = hname(k)
     holder = Holder()
     RT.keepalive.append(holder)
     return holder.run
@@ -615,8 +645,8 @@ def make_handler(bi, k, h):
             finally:
                 if rt is RT:
                     RT.syncstack[t].pop()
-        hs.__name__ = f'h{k}'
-        hs.__qualname__ = f'h{k}'
+        hs.__name__ = hname(k)
+        hs.__qualname__ = hname(k)
         return hs
 
     async def ha(event):
@@ -642,8 +672,8 @@ def make_handler(bi, k, h):
         except Exception:
             RT.rec('hEnd', i=i, out='raise')
             raise
-    ha.__name__ = f'h{k}'
-    ha.__qualname__ = f'h{k}'
+    ha.__name__ = hname(k)
+    ha.__qualname__ = hname(k)
     return ha
 
 
@@ -840,9 +870,18 @@ async def run_sc(sc):
             fn = RT.buses[h['target']].dispatch
         else:
             fn = make_handler(h['bus'], k, h)
+            if h.get('retry') and h['kind'] == 'async':
+                from bubus.helpers import retry
+                fn = retry(wait=0, retries=0, timeout=4096)(fn)
             if h.get('method'):
                 # registered as a bound method of an object (a new bound-method object on every attribute access)
-                fn = make_method_handler(fn, h['kind'] == 'sync', k)
+                if h['method'] in ('own', 'other'):
+                    # a bound method of a bus object itself (an EventBus subclass handling events with its own methods),
+                    # or of another bus of the scenario
+                    owner = RT.buses[h['bus'] if h['method'] == 'own' else (h['bus'] + 1) % len(RT.buses)]
+                    fn = make_bus_method_handler(fn, h['kind'] == 'sync', k, owner)
+                else:
+                    fn = make_method_handler(fn, h['kind'] == 'sync', k)
         keys = h.get('keys') or [h['key']]
         for key in keys:
             # the three pattern kinds: '*' , the type name, or (byclass) the event class itself
@@ -874,6 +913,34 @@ async def run_sc(sc):
             for _ in range(4):
                 await asyncio.sleep(0)
             done = True
+    # C08: reading a completed event through the documented accessors changes nothing of it
+    for i, ev in sorted(RT.evobj.items()):
+        try:
+            sig = bool(ev._event_completed_signal and ev._event_completed_signal.is_set())
+            if not (sig and ev.event_status == 'completed'):
+                continue
+            before = valsnap(ev)
+            for name in ('event_results_by_handler_id', 'event_results_by_handler_name', 'event_results_list',
+                         'event_results_flat_dict', 'event_results_flat_list', 'event_result'):
+                acc = getattr(ev, name, None)
+                if acc is None:
+                    continue
+                params = inspect.signature(acc).parameters
+                kw = {k: False for k in ('raise_if_any', 'raise_if_none', 'raise_if_conflicts') if k in params}
+                if 'timeout' in params:
+                    kw['timeout'] = 0.25
+                try:
+                    await acc(**kw)
+                except (Exception, asyncio.CancelledError):
+                    pass       # (an accessor re-raises a handler's recorded error, which may be a CancelledError)
+            after = valsnap(ev)
+            if after != before:
+                diff = [k for k in sorted(set(before) | set(after)) if before.get(k) != after.get(k)]
+                RT.rec('accessors', e=i, changed=True, what=f'{diff[0]}: {before.get(diff[0])} -> {after.get(diff[0])}')
+            else:
+                RT.rec('accessors', e=i, changed=False, what='')
+        except Exception as ex:
+            RT.rec('accessors', e=i, changed=False, what=f'harness: {type(ex).__name__}')
     RT.rec('final', events={i: evsnap(e) for i, e in RT.evobj.items()}, buses=[bussnap(b) for b in RT.buses],
            sem=(svc._get_global_lock()._semaphore._value if svc._get_global_lock()._semaphore else 1),
            tasks_done=[t.done() for t in tasks])
